@@ -159,8 +159,8 @@ impl Scenario for HybridScenario {
                     reports.push((false, key, ((1 << bk_bits) - 1 - r.below(3)) as u32));
                 }
                 5 => {
-                    // three or more reports on one key: contributes nothing
-                    for _ in 0..r.range(3, 4) {
+                    // three or more reports on one key (up to 11): contributes nothing
+                    for _ in 0..r.pick(&[3usize, 3, 4, 5, 5, 6, 7, 8, 8, 11]) {
                         if r.chance(1, 2) { reports.push((false, key, r.below(1 << bk_bits) as u32)) } else { reports.push((true, key, r.range(1, 7) as u32)) }
                     }
                 }
@@ -201,6 +201,8 @@ impl Scenario for HybridScenario {
         if self.tampered {
             p["corrupt"] = json!(r.below(3));
             p["site_seed"] = json!(r.next_u64() >> 12);
+            p["attack"] = json!(if r.chance(1, 6) { "prf_lane_cancel" } else { "single" });
+            p["replays"] = json!(if tier == Tier::Quick { 2 } else { 4 });
         }
         p["sched"] = SchedSpec::draw(&mut r, est, 60_000_000);
         p["sched"]["stack"] = json!(0x40000);
@@ -402,15 +404,75 @@ fn judge(p: &Value, shards: usize, buckets: usize, reports: &[Report], assign: &
         res.probe("third_aggregation_layer", u64::from(pu(p, "shards") == 1 && fullest > 64));
         return res;
     }
-    // ---------- tampered run ----------
+    // ---------- tampered runs: the honest run's inventory serves `replays` same-seed replays, each with its own site(s) ----------
     let corrupt = pu(p, "corrupt");
-    let mut sr = Rng::sub(pu64(p, "site_seed"), 0);
+    let attack = p.get("attack").and_then(Value::as_str).unwrap_or("single").to_string();
+    let explicit_site = matches!(p.get("site"), Some(s) if !s.is_null());
+    let replays = if explicit_site { 1 } else { p.get("replays").and_then(Value::as_u64).unwrap_or(1).clamp(1, 8) as usize };
+    let mut acc: Option<RunRes> = None;
+    let mut extras: Vec<Value> = Vec::new();
+    for rep in 0..replays {
+        let mut sr = Rng::sub(pu64(p, "site_seed"), rep as u64);
+        let r = tampered_replay(p, shards, buckets, want, corrupt, if rep == 0 { attack.as_str() } else { "single" }, &mut sr, &honest, &shape, run);
+        if r.verdict == Verdict::Violation {
+            return r;
+        }
+        extras.push(r.extra.clone());
+        acc = Some(match acc {
+            None => r,
+            Some(mut a) => {
+                for (k, v) in &r.probes { a.probe(k, *v); }
+                for (k, v) in &r.faults { a.fault(k, *v); }
+                let r_nontrivial = r.nontrivial;
+                if a.verdict != Verdict::Pass && r.verdict == Verdict::Pass {
+                    // at least one replay was judged: the run counts
+                    let (pr, fa) = (a.probes.clone(), a.faults.clone());
+                    a = r;
+                    a.probes = pr;
+                    a.faults = fa;
+                }
+                a.nontrivial = a.nontrivial || r_nontrivial;
+                a
+            }
+        });
+    }
+    let mut res = acc.unwrap();
+    res.extra = json!({"replays": extras});
+    res
+}
+
+#[allow(clippy::too_many_arguments)]
+fn tampered_replay(p: &Value, shards: usize, buckets: usize, want: &[u128], corrupt: usize, attack: &str, sr: &mut Rng, honest: &OneRun, shape: &str, run: &dyn Fn(Vec<Site>) -> OneRun) -> RunRes {
+    let shape = shape.to_string();
     let sites: Vec<Site> = match p.get("site") {
         Some(s) if !s.is_null() => Site::list_from_json(s),
-        _ => draw_site(&honest.inv, &|k: &ChanKey| k.sender_helper() == corrupt, &mut sr, &["flip:0", "flip:3", "flip:7", "add1", "set0", "setff", "addle:4", "addle:32"]).into_iter().collect(),
+        _ if attack == "prf_lane_cancel" => {
+            // +1 in one lane and -1 in another lane of one 16-lane message of the masked-PRF-input multiplication, and the same
+            // in the copy of that share the corrupt helper contributes to the opening of z
+            let mults: Vec<&ChanKey> = honest.inv.keys().filter(|c| c.kind == "mpc" && c.src == corrupt && c.gate.ends_with("/mult_mask_with_p_r_f_input")).collect();
+            if mults.is_empty() {
+                Vec::new()
+            } else {
+                let m = mults[sr.below(mults.len())].clone();
+                let prefix = m.gate.trim_end_matches("mult_mask_with_p_r_f_input").to_string();
+                let third = 3 - corrupt - m.dst;
+                let o = honest.inv.keys().find(|c| c.kind == "mpc" && c.src == corrupt && c.dst == third && c.shard == m.shard && c.gate == format!("{prefix}revealz")).cloned();
+                let nrec = (honest.inv[&m].bytes / 512).max(1);
+                let (k, l0) = (sr.below(nrec), sr.below(16));
+                let l1 = (l0 + 1 + sr.below(15)) % 16;
+                match o {
+                    Some(o) => [m, o].into_iter().flat_map(|chan| [
+                        Site { chan: chan.clone(), chunk: 0, offset: 0, pattern: "addle:32".into(), stream_off: Some(k * 512 + l0 * 32) },
+                        Site { chan, chunk: 0, offset: 0, pattern: "suble:32".into(), stream_off: Some(k * 512 + l1 * 32) },
+                    ]).collect(),
+                    None => Vec::new(),
+                }
+            }
+        }
+        _ => draw_site(&honest.inv, &|k: &ChanKey| k.sender_helper() == corrupt, sr, &["flip:0", "flip:3", "flip:7", "add1", "set0", "setff", "addle:4", "addle:32"]).into_iter().collect(),
     };
     if sites.is_empty() {
-        return RunRes::inconclusive("no_site", "no channel of the corrupt helper".into(), shape, Some(honest.outcome));
+        return RunRes::inconclusive("no_site", "no channel of the corrupt helper".into(), shape, Some(honest.outcome.clone()));
     }
     let bad = run(sites.clone());
     let o = bad.outcome.clone();
@@ -453,6 +515,9 @@ fn judge(p: &Value, shards: usize, buckets: usize, reports: &[Report], assign: &
     res.probe(&format!("outcome_{}", o.class), 1);
     let stage = sites[0].chan.gate.split('/').nth(2).unwrap_or("").trim_end_matches(char::is_numeric).to_string();
     res.probe(&format!("stage_{stage}"), 1);
+    if sites.len() > 1 {
+        res.fault("F1_prf_lane_cancelling_attack", u64::from(bad.fired.len() >= sites.len()));
+    }
     res.extra = json!({"site": sites_json, "fired": bad.fired, "inventory_channels": honest.inv.len()});
     res
 }
